@@ -1,4 +1,587 @@
+//! C04 - the backend request server emits exactly the replies the protocol prescribes and the
+//! two peers stay in step over any history of well-formed requests.
+//!
+//! A raw peer sends spec-encoded requests one at a time; after each `handle_request` it drains
+//! and decodes everything the server wrote and compares with a small reference protocol model
+//! replayed on the same history. It also checks that the server consumed exactly
+//! header + declared size (SIOCINQ == 0 on the server's socket).
+
+use crate::c01::req_files;
+use crate::ops::{self, FeOp, ReplyKind};
+use crate::rec::{CfgOut, DevStateOut, Script};
+use crate::util;
 use crate::Cfg;
-pub fn run(_cfg: &Cfg) {
-    common::report::inconclusive("not implemented");
+use common::spec::{self, fe, F_NEED_REPLY, F_REPLY, F_VERSION1};
+use common::sys;
+use common::{jo, report, Rng, J};
+use std::os::unix::io::{AsRawFd, RawFd};
+
+/// Request symbols a raw peer can send (a superset of what the Frontend API can produce).
+#[derive(Clone, Debug, PartialEq)]
+pub enum ROp {
+    Fe(FeOp),
+    GpuSetSocket,
+    /// SET_VRING_KICK/CALL/ERR with the "no descriptor" bit (0x100) and no descriptor attached
+    VringFdNone(u32, u8),
+    /// request codes the message enum knows but the server does not dispatch
+    Unimpl(u32, Vec<u8>, usize),
+}
+
+impl ROp {
+    pub fn code(&self) -> u32 {
+        match self {
+            ROp::Fe(o) => o.code(),
+            ROp::GpuSetSocket => fe::GPU_SET_SOCKET,
+            ROp::VringFdNone(c, _) => *c,
+            ROp::Unimpl(c, _, _) => *c,
+        }
+    }
+    pub fn name(&self) -> String {
+        match self {
+            ROp::Fe(o) => o.name().to_string(),
+            ROp::GpuSetSocket => "set_gpu_socket".into(),
+            ROp::VringFdNone(c, _) => format!("{}(nofd)", fe::name(*c).to_lowercase()),
+            ROp::Unimpl(c, _, _) => format!("unimpl:{}", fe::name(*c)),
+        }
+    }
+    pub fn wire(&self) -> (Vec<u8>, usize) {
+        match self {
+            ROp::Fe(o) => o.wire(true),
+            ROp::GpuSetSocket => (vec![], 1),
+            ROp::VringFdNone(_, i) => (spec::p_u64(0x100 | *i as u64), 0),
+            ROp::Unimpl(_, b, n) => (b.clone(), *n),
+        }
+    }
+    /// handler method the request dispatches to (None for unimplemented codes)
+    pub fn method(&self) -> Option<&'static str> {
+        match self {
+            ROp::Fe(FeOp::SetLogFd) => None,
+            ROp::Fe(o) => Some(o.name()),
+            ROp::GpuSetSocket => Some("set_gpu_socket"),
+            ROp::VringFdNone(c, _) => Some(match *c {
+                fe::SET_VRING_KICK => "set_vring_kick",
+                fe::SET_VRING_CALL => "set_vring_call",
+                _ => "set_vring_err",
+            }),
+            ROp::Unimpl(..) => None,
+        }
+    }
+    pub fn reply_kind(&self) -> ReplyKind {
+        match self {
+            ROp::Fe(o) => o.reply_kind(true),
+            _ => ReplyKind::Ack,
+        }
+    }
+    /// protocol feature gating the request on the backend (statement of C07)
+    pub fn gate_pf(&self) -> Option<u64> {
+        match self {
+            ROp::Fe(FeOp::SetLogBase(..)) => Some(spec::PF_LOG_SHMFD),
+            // device-state transfer is gated on the frontend only
+            ROp::Fe(FeOp::SetDeviceStateFd(..)) | ROp::Fe(FeOp::CheckDeviceState) => None,
+            ROp::Fe(o) => o.gate_pf(),
+            _ => None,
+        }
+    }
+    pub fn j(&self) -> J {
+        match self {
+            ROp::Fe(o) => o.j(),
+            other => J::S(format!("{other:x?}")),
+        }
+    }
+    pub fn files(&self, n: usize) -> (Vec<std::fs::File>, Vec<std::os::unix::net::UnixStream>) {
+        match self {
+            ROp::Fe(o) => req_files(o, n),
+            ROp::GpuSetSocket => req_files(&FeOp::SetBackendReqFd, n),
+            _ => req_files(&FeOp::SetLogFd, n),
+        }
+    }
+}
+
+#[derive(Clone, Debug, PartialEq)]
+pub struct Sym {
+    pub op: ROp,
+    pub nr: bool,
+    pub fail: bool,
+    /// for GET_FEATURES: whether the device offers VHOST_USER_F_PROTOCOL_FEATURES
+    pub offer_pf: bool,
+}
+
+impl Sym {
+    pub fn j(&self) -> J {
+        jo! {"req" => self.op.name(), "need_reply" => self.nr, "handler_fails" => self.fail, "offers_pf" => self.offer_pf}
+    }
+    pub fn short(&self) -> String {
+        format!("{}{}{}{}", self.op.name(), if self.nr { "+NR" } else { "" }, if self.fail { "+FAIL" } else { "" }, if self.offer_pf { "" } else { "-PF" })
+    }
+}
+
+/// One representative of every request kind the server dispatches, plus the raw-only shapes and
+/// the unimplemented codes.
+pub fn full_ops(rng: &mut Rng) -> Vec<ROp> {
+    let mut v: Vec<ROp> = Vec::new();
+    for kind in 0..ops::N_OP_KINDS {
+        let op = loop {
+            let o = ops::rand_op(rng, 8, Some(kind));
+            if !o.locally_invalid(8) {
+                break o;
+            }
+        };
+        v.push(ROp::Fe(op));
+    }
+    v.push(ROp::GpuSetSocket);
+    v.push(ROp::VringFdNone(fe::SET_VRING_KICK, 1));
+    v.push(ROp::VringFdNone(fe::SET_VRING_CALL, 0));
+    v.push(ROp::VringFdNone(fe::SET_VRING_ERR, 1));
+    v.push(ROp::Unimpl(fe::SEND_RARP, spec::p_u64(0x1234), 0));
+    v.push(ROp::Unimpl(fe::NET_SET_MTU, spec::p_u64(1500), 0));
+    v.push(ROp::Unimpl(fe::IOTLB_MSG, vec![0u8; 40], 0));
+    v.push(ROp::Unimpl(fe::SET_VRING_ENDIAN, spec::p_vring_state(0, 1), 0));
+    v.push(ROp::Unimpl(fe::CLOSE_CRYPTO_SESSION, spec::p_u64(1), 0));
+    v.push(ROp::Unimpl(fe::VRING_KICK, spec::p_vring_state(0, 0), 0));
+    v.push(ROp::Unimpl(fe::SET_STATUS, spec::p_u64(0xf), 0));
+    v.push(ROp::Unimpl(fe::GET_STATUS, vec![], 0));
+    v
+}
+
+pub fn negotiation_syms() -> Vec<Sym> {
+    let mut v = Vec::new();
+    for nr in [false, true] {
+        let mk = |op: FeOp, offer_pf: bool| Sym { op: ROp::Fe(op), nr, fail: false, offer_pf };
+        v.push(mk(FeOp::GetFeatures, true));
+        v.push(mk(FeOp::GetFeatures, false));
+        v.push(mk(FeOp::SetFeatures(spec::VIRTIO_F_PROTOCOL_FEATURES | 1), true));
+        v.push(mk(FeOp::SetFeatures(1), true));
+        v.push(mk(FeOp::GetProtocolFeatures, true));
+        v.push(mk(FeOp::SetProtocolFeatures(ops::ALL_PF), true));
+        v.push(mk(FeOp::SetProtocolFeatures(ops::ALL_PF & !spec::PF_REPLY_ACK), true));
+        v.push(mk(FeOp::SetProtocolFeatures(spec::PF_REPLY_ACK), true));
+    }
+    v
+}
+
+pub fn full_syms(rng: &mut Rng) -> Vec<Sym> {
+    let mut v = Vec::new();
+    for op in full_ops(rng) {
+        for nr in [false, true] {
+            for fail in [false, true] {
+                // set_backend_req_fd returns () in the handler trait: it cannot fail
+                if fail && (op.method().is_none() || op.method() == Some("set_backend_req_fd")) {
+                    continue;
+                }
+                v.push(Sym { op: op.clone(), nr, fail, offer_pf: true });
+            }
+        }
+    }
+    v
+}
+
+// ---- reference protocol model ---------------------------------------------------------------
+#[derive(Clone, Debug, Default)]
+pub struct Model {
+    pub offered_virtio: u64,
+    pub acked_virtio: u64,
+    pub acked_pf: u64,
+}
+
+#[derive(Clone, Debug, PartialEq)]
+pub enum Expect {
+    /// exactly one reply: payload size (None = don't care), must-have-fd (None = don't care)
+    Reply { size: Option<usize>, fds: Option<usize> },
+    Ack { zero: bool },
+    Nothing,
+    /// ack written or not is left open by the statement (see DESIGN C04 don't-care)
+    AckOrNothing { zero: bool },
+    /// rejected before dispatch: nothing, or a negative ack
+    Rejected,
+    /// unimplemented request code: only "no panic, stream stays in sync" is judged
+    Unjudged,
+}
+
+impl Model {
+    pub fn reply_ack(&self) -> bool {
+        self.offered_virtio & spec::VIRTIO_F_PROTOCOL_FEATURES != 0 && self.acked_pf & spec::PF_REPLY_ACK != 0
+    }
+    /// Is the request let through to the handler in this negotiation state?
+    pub fn admitted(&self, op: &ROp) -> bool {
+        if let Some(bit) = op.gate_pf() {
+            if self.acked_pf & bit == 0 {
+                return false;
+            }
+        }
+        if matches!(op, ROp::Fe(FeOp::SetVringEnable(..))) && self.acked_virtio & spec::VIRTIO_F_PROTOCOL_FEATURES == 0 {
+            return false;
+        }
+        true
+    }
+    /// Prediction for `s` in the current state; updates the state.
+    pub fn step(&mut self, s: &Sym, features_offered: u64) -> Expect {
+        if s.op.method().is_none() {
+            return Expect::Unjudged;
+        }
+        if !self.admitted(&s.op) {
+            return Expect::Rejected;
+        }
+        let before = self.reply_ack();
+        // state effects of the message itself
+        match &s.op {
+            ROp::Fe(FeOp::GetFeatures) if !s.fail => self.offered_virtio = features_offered,
+            ROp::Fe(FeOp::SetFeatures(v)) => self.acked_virtio = *v,
+            ROp::Fe(FeOp::SetProtocolFeatures(v)) => self.acked_pf = *v,
+            _ => {}
+        }
+        let after = self.reply_ack();
+        match s.op.reply_kind() {
+            ReplyKind::Ack => {
+                if !s.nr {
+                    Expect::Nothing
+                } else if before != after {
+                    Expect::AckOrNothing { zero: !s.fail }
+                } else if after {
+                    Expect::Ack { zero: !s.fail }
+                } else {
+                    Expect::Nothing
+                }
+            }
+            ReplyKind::Nothing => Expect::Nothing,
+            kind => {
+                let op = match &s.op {
+                    ROp::Fe(o) => o,
+                    _ => unreachable!(),
+                };
+                if !s.fail {
+                    let (size, fds) = match kind {
+                        ReplyKind::U64 => (Some(8), Some(0)),
+                        ReplyKind::VringState => (Some(8), Some(0)),
+                        ReplyKind::Config => {
+                            if let FeOp::GetConfig { size, .. } = op {
+                                (Some(12 + *size as usize), Some(0))
+                            } else {
+                                (None, None)
+                            }
+                        }
+                        ReplyKind::InflightFd => (Some(24), Some(1)),
+                        ReplyKind::EmptyFd => (Some(0), Some(1)),
+                        ReplyKind::U64OptFd => (Some(8), None),
+                        ReplyKind::ShmemCfg => (Some(8 + 256 * 8), Some(0)),
+                        ReplyKind::Log => (None, Some(0)),
+                        _ => (None, None),
+                    };
+                    Expect::Reply { size, fds }
+                } else {
+                    // in-band failure encodings defined by the protocol
+                    match op {
+                        FeOp::GetConfig { .. } => Expect::Reply { size: Some(12), fds: Some(0) },
+                        FeOp::GetSharedObject(_) | FeOp::PostcopyAdvise => Expect::Reply { size: Some(0), fds: Some(0) },
+                        FeOp::SetDeviceStateFd(..) | FeOp::CheckDeviceState => Expect::Reply { size: Some(8), fds: Some(0) },
+                        _ => Expect::Nothing,
+                    }
+                }
+            }
+        }
+    }
+}
+
+pub struct StepObs {
+    pub result: String,
+    pub msgs: Vec<spec::RawMsg>,
+    pub trailing: Vec<u8>,
+    pub unread_by_server: usize,
+    pub handler_calls: Vec<crate::rec::Call>,
+}
+
+/// Send one symbol to the server and observe everything.
+pub fn send_sym(peer: &std::os::unix::net::UnixStream, srv: &mut util::Srv, be: &std::sync::Arc<std::sync::Mutex<crate::rec::RecBackend>>, s: &Sym, features_offered: u64) -> Result<StepObs, util::PanicRec> {
+    {
+        let mut g = be.lock().unwrap();
+        g.script.features = features_offered;
+        g.script.fail = if s.fail { vec!["*"] } else { vec![] };
+        g.script.config = if s.fail { CfgOut::Err } else { CfgOut::Right };
+        g.script.dev_state = if s.fail { DevStateOut::Err } else { DevStateOut::NoFile };
+        g.held.clear();
+        g.backend = None;
+        g.gpu = None;
+        g.returned.clear();
+        g.log.clear();
+    }
+    let (body, nfds) = s.op.wire();
+    let (files, socks) = s.op.files(nfds);
+    let mut fds: Vec<RawFd> = files.iter().map(|f| f.as_raw_fd()).collect();
+    fds.extend(socks.iter().step_by(2).map(|s| s.as_raw_fd()));
+    let flags = F_VERSION1 | if s.nr { F_NEED_REPLY } else { 0 };
+    sys::send_all(peer.as_raw_fd(), &spec::msg(s.op.code(), flags, &body), &fds).expect("send request");
+    let res = util::catch(|| srv.handle_request())?;
+    let (msgs, trailing) = spec::read_all_msgs(peer.as_raw_fd(), 1 << 20);
+    let unread = sys::inq(srv.as_raw_fd());
+    let calls = be.lock().unwrap().log.clone();
+    Ok(StepObs { result: format!("{res:?}"), msgs, trailing, unread_by_server: unread, handler_calls: calls })
+}
+
+fn features_for(s: &Sym) -> u64 {
+    if s.offer_pf {
+        spec::VIRTIO_F_PROTOCOL_FEATURES | 0x1_0000_0003
+    } else {
+        0x1_0000_0003
+    }
+}
+
+/// Run one history on a fresh server; returns false on the first violation.
+pub fn run_history(cfg: &Cfg, hist: &[Sym], case: &str) -> bool {
+    let (peer, mut srv, be) = util::raw_server(Script { protocol_features: ops::ALL_PF, ..Script::default() });
+    let mut model = Model::default();
+    let mut expected_replies: Vec<u32> = Vec::new();
+    let mut seen_replies: Vec<u32> = Vec::new();
+    let hj = |upto: usize| J::A(hist[..=upto].iter().map(|s| J::S(s.short())).collect());
+    for (i, s) in hist.iter().enumerate() {
+        let feats = features_for(s);
+        let exp = model.step(s, feats);
+        let mut obs = match send_sym(&peer, &mut srv, &be, s, feats) {
+            Ok(o) => o,
+            Err(p) => {
+                report::violation(&format!("C04:{}:panic", s.op.name()), jo! {"history" => hj(i), "panic" => p.msg, "at" => p.location}, cfg.replay(case));
+                return false;
+            }
+        };
+        report::eval(1);
+        report::count(&format!("expect.{}", match &exp { Expect::Reply{..} => "reply", Expect::Ack{..} => "ack", Expect::Nothing => "nothing", Expect::AckOrNothing{..} => "ack-or-nothing", Expect::Rejected => "rejected", Expect::Unjudged => "unjudged" }), 1);
+        let written = |obs: &StepObs| J::A(obs.msgs.iter().map(|m| jo! {"hdr" => J::hex(&m.hdr_bytes), "body" => J::hex(&m.body), "fds" => m.fds_first.len()}).collect());
+        let detail = |what: &str, obs: &StepObs| {
+            jo! {"what" => what, "history" => hj(i), "request" => s.j(), "expected" => format!("{exp:?}"), "written" => written(obs),
+            "trailing_bytes" => J::hex(&obs.trailing), "handle_request" => obs.result.as_str(), "model" => format!("{model:x?}")}
+        };
+        let mut ok = true;
+        let mut bad = |what: &str, sig: &str, obs: &StepObs| {
+            report::violation(&format!("C04:{}:{}", s.op.name(), sig), detail(what, obs), cfg.replay(case));
+            ok = false;
+        };
+        // (1) consumed exactly header + declared size
+        if obs.unread_by_server != 0 {
+            bad("server left request bytes unread", "request-not-consumed", &obs);
+        }
+        if !obs.trailing.is_empty() {
+            bad("server wrote a partial message", "partial-reply", &obs);
+        }
+        // (2) header fields of everything written
+        for m in &obs.msgs {
+            let h = m.hdr();
+            if h.code != s.op.code() || h.flags != (F_VERSION1 | F_REPLY) || h.size as usize != m.body.len() || !m.fds_later.is_empty() {
+                bad("reply header: same code, REPLY set, NEED_REPLY clear, version 1, size = payload", "reply-header", &obs);
+            }
+        }
+        // (3) count / shape
+        let n = obs.msgs.len();
+        match &exp {
+            Expect::Unjudged => {
+                report::observe(&format!("unimplemented-request:{}:writes={}:{}", s.op.name(), n, obs.result), J::Null);
+            }
+            Expect::Rejected => {
+                let nack = n == 1 && obs.msgs[0].body.len() == 8 && spec::rd_u64(&obs.msgs[0].body, 0) != 0 && s.nr;
+                if !(n == 0 || nack) {
+                    bad("request rejected before dispatch must not be answered as if it succeeded", "rejected-but-answered", &obs);
+                }
+                if !obs.handler_calls.is_empty() {
+                    bad("gated request reached the handler", "gated-request-dispatched", &obs);
+                }
+                report::observe(&format!("rejected-request-writes={n}"), s.j());
+            }
+            Expect::Nothing => {
+                if n != 0 {
+                    bad("nothing must be written", "unexpected-message", &obs);
+                }
+            }
+            Expect::Ack { zero } | Expect::AckOrNothing { zero } => {
+                let optional = matches!(exp, Expect::AckOrNothing { .. });
+                if n == 0 && optional {
+                    report::observe("ack-on-state-changing-message:not-sent", s.j());
+                } else if n != 1 {
+                    bad("exactly one acknowledgement expected", "ack-count", &obs);
+                } else {
+                    if optional {
+                        report::observe("ack-on-state-changing-message:sent", s.j());
+                    }
+                    let m = &obs.msgs[0];
+                    if m.body.len() != 8 || !m.fds_first.is_empty() {
+                        bad("acknowledgement must be one u64 without descriptors", "ack-shape", &obs);
+                    } else if (spec::rd_u64(&m.body, 0) == 0) != *zero {
+                        bad("acknowledgement value must be 0 iff the handler succeeded", "ack-value", &obs);
+                    }
+                }
+            }
+            Expect::Reply { size, fds } => {
+                if n != 1 {
+                    bad("exactly one reply expected", "reply-count", &obs);
+                } else {
+                    let m = &obs.msgs[0];
+                    if size.is_some_and(|sz| sz != m.body.len()) {
+                        bad("reply payload size", "reply-size", &obs);
+                    }
+                    if fds.is_some_and(|k| k != m.fds_first.len()) {
+                        bad("reply descriptor count", "reply-fds", &obs);
+                    }
+                    if s.fail {
+                        // in-band failure encodings
+                        let good = match &s.op {
+                            ROp::Fe(FeOp::GetConfig { .. }) => m.body.len() == 12 && spec::rd_u32(&m.body, 4) == 0,
+                            ROp::Fe(FeOp::SetDeviceStateFd(..)) => m.body.len() == 8 && spec::rd_u64(&m.body, 0) & 0xff != 0,
+                            ROp::Fe(FeOp::CheckDeviceState) => m.body.len() == 8 && spec::rd_u64(&m.body, 0) != 0,
+                            _ => m.fds_first.is_empty(),
+                        };
+                        if !good {
+                            bad("in-band failure encoding", "failure-encoding", &obs);
+                        }
+                    }
+                }
+            }
+        }
+        if n == 1 && !matches!(exp, Expect::Unjudged) {
+            seen_replies.push(obs.msgs[0].hdr().code);
+        }
+        match exp {
+            Expect::Reply { .. } | Expect::Ack { .. } => expected_replies.push(s.op.code()),
+            Expect::AckOrNothing { .. } | Expect::Rejected if n == 1 => expected_replies.push(s.op.code()),
+            _ => {}
+        }
+        for m in obs.msgs.iter_mut() {
+            m.close_fds();
+        }
+        if !ok {
+            return false;
+        }
+        // a request error ends a daemon connection, but the server object stays usable: the
+        // history continues (part of the property: the stream stays in sync)
+    }
+    if expected_replies != seen_replies {
+        report::violation("C04:history:reply-pairing", jo! {"history" => hj(hist.len() - 1), "expected_codes" => expected_replies.iter().map(|c| *c as u64).collect::<Vec<u64>>(), "seen_codes" => seen_replies.iter().map(|c| *c as u64).collect::<Vec<u64>>()}, cfg.replay(case));
+        return false;
+    }
+    let key: String = hist.iter().map(|s| s.short()).collect::<Vec<_>>().join(",");
+    report::distinct_str(&key);
+    if hist.len() >= 2 {
+        report::sample(&format!("len{}", hist.len().min(5)), jo! {"history" => hj(hist.len() - 1)});
+    }
+    report::count("histories", 1);
+    true
+}
+
+pub fn run(cfg: &Cfg) {
+    report::assume("reference model (c04::Model) written from the property statement; ack on a SET_PROTOCOL_FEATURES/GET_FEATURES that itself flips the REPLY_ACK state is left open (observed, not judged)");
+    report::assume("requests rejected before dispatch (gated) may be answered with nothing or a negative ack; unimplemented request codes are judged for sync/no-panic only");
+    let mut vrng = Rng::new(0xc04); // symbol argument values: fixed so that case ids are stable
+    let full = full_syms(&mut vrng);
+    let nego = negotiation_syms();
+    report::extra("x_alphabet_size", J::U(full.len() as u64));
+    if let Some(only) = &cfg.only {
+        // case id = comma-separated indexes: n<idx> negotiation symbol, f<idx> full-alphabet symbol
+        if only == "all" {
+            return;
+        }
+        let hist: Vec<Sym> = only
+            .split('.')
+            .filter_map(|t| {
+                let (k, i) = t.split_at(1);
+                let i: usize = i.parse().ok()?;
+                match k {
+                    "n" => nego.get(i).cloned(),
+                    _ => full.get(i).cloned(),
+                }
+            })
+            .collect();
+        if !hist.is_empty() {
+            run_history(cfg, &hist, only);
+        }
+        return;
+    }
+    let mut idx = 0u64;
+    let mut budget_ok = true;
+    // depth 1 and 2: negotiation prefix (or none) x every probe
+    for (pi, probe) in full.iter().enumerate() {
+        idx += 1;
+        if cfg.mine(idx) && budget_ok {
+            budget_ok &= run_history(cfg, std::slice::from_ref(probe), &format!("f{pi}")) || report::violations_so_far() < 40;
+        }
+    }
+    let maxdepth = cfg.pick(2, 3);
+    // exhaustive negotiation prefixes up to maxdepth, each followed by every probe
+    let mut prefixes: Vec<Vec<usize>> = vec![vec![]];
+    for _ in 0..maxdepth {
+        let mut next = Vec::new();
+        for p in &prefixes {
+            for i in 0..nego.len() {
+                let mut q = p.clone();
+                q.push(i);
+                next.push(q);
+            }
+        }
+        for p in &next {
+            for (pi, probe) in full.iter().enumerate() {
+                idx += 1;
+                if !cfg.mine(idx) || !budget_ok {
+                    continue;
+                }
+                let mut hist: Vec<Sym> = p.iter().map(|i| nego[*i].clone()).collect();
+                hist.push(probe.clone());
+                let case = format!("{}.f{pi}", p.iter().map(|i| format!("n{i}")).collect::<Vec<_>>().join("."));
+                budget_ok &= run_history(cfg, &hist, &case) || report::violations_so_far() < 40;
+            }
+        }
+        prefixes = next;
+    }
+    // depth 4 prefixes without NEED_REPLY variation (thorough)
+    if cfg.thorough {
+        let half = nego.len() / 2;
+        let mut p4: Vec<Vec<usize>> = vec![vec![]];
+        for _ in 0..4 {
+            p4 = p4.iter().flat_map(|p| (0..half).map(move |i| { let mut q = p.clone(); q.push(i); q })).collect();
+        }
+        for p in &p4 {
+            for (pi, probe) in full.iter().enumerate() {
+                idx += 1;
+                if !cfg.mine(idx) || !budget_ok || !probe.nr {
+                    continue;
+                }
+                let mut hist: Vec<Sym> = p.iter().map(|i| nego[*i].clone()).collect();
+                hist.push(probe.clone());
+                let case = format!("{}.f{pi}", p.iter().map(|i| format!("n{i}")).collect::<Vec<_>>().join("."));
+                budget_ok &= run_history(cfg, &hist, &case) || report::violations_so_far() < 40;
+            }
+        }
+    }
+    // exhaustive depth 2 over the full alphabet (thorough; quick samples it)
+    {
+        let mut rng = Rng::new(cfg.seed ^ 0xd2);
+        for (ai, a) in full.iter().enumerate() {
+            for (bi, b) in full.iter().enumerate() {
+                idx += 1;
+                if !cfg.mine(idx) || !budget_ok {
+                    continue;
+                }
+                if !cfg.thorough && !rng.chance(1, 12) {
+                    continue;
+                }
+                budget_ok &= run_history(cfg, &[a.clone(), b.clone()], &format!("f{ai}.f{bi}")) || report::violations_so_far() < 40;
+            }
+        }
+    }
+    // random histories to depth 16
+    let mut rng = Rng::new(cfg.seed.wrapping_mul(77).wrapping_add(cfg.shard));
+    for _ in 0..cfg.pick(1500, 20000) {
+        if !budget_ok {
+            break;
+        }
+        let len = rng.range(3, 16) as usize;
+        let mut ids = Vec::new();
+        let mut hist = Vec::new();
+        for _ in 0..len {
+            if rng.chance(2, 5) {
+                let i = rng.below(nego.len() as u64) as usize;
+                ids.push(format!("n{i}"));
+                hist.push(nego[i].clone());
+            } else {
+                let i = rng.below(full.len() as u64) as usize;
+                ids.push(format!("f{i}"));
+                hist.push(full[i].clone());
+            }
+        }
+        budget_ok &= run_history(cfg, &hist, &ids.join(".")) || report::violations_so_far() < 40;
+    }
+    report::set_exhaustive(true);
 }
